@@ -14,14 +14,15 @@ import SciVerif.Lemmas.Graph
   the run set — including the one that becomes the driver — makes `runProcs` fail before start.
 * negatives (what each flag of the record protects): `c16_recursion_without_skipSelf` (F9),
   `c16_double_start_runto` (F2), `c16_double_start_single` (F21), `c16_driver_not_checked` (F16),
-  `c16_sink_not_run` (F1).
+  `c16_sink_not_run` (F1), `c16_param_closure_not_merged` (closure through parameter connections dropped).
 -/
 namespace SciVerif.Graph
 
 theorem c16_closure_is_upstream (wf : Wf) (hac : acyclic wf) (p f : Nat) (hf : p < f) :
     ∃ l, closureF wf true f p = some l ∧ ∀ q, q ∈ l ↔ Reach wf q p := closure_spec wf hac p f hf
 
-theorem c16_runset_is_closure (sem : RunSem) (hs : sem.skipSelf = true) (wf : Wf) (hac : acyclic wf)
+theorem c16_runset_is_closure (sem : RunSem) (hs : sem.skipSelf = true) (hmf : sem.mergesFile = true)
+    (hmp : sem.mergesParam = true) (wf : Wf) (hac : acyclic wf)
     (ts : List Nat) (hts : ∀ t ∈ ts, t ≤ wf.n) :
     ∃ rs, runSet sem wf (some ts) = some rs ∧ rs.Nodup ∧
       ∀ q, q ∈ rs ↔ q ∈ ts ∨ ∃ t ∈ ts, Reach wf q t := by
@@ -30,7 +31,8 @@ theorem c16_runset_is_closure (sem : RunSem) (hs : sem.skipSelf = true) (wf : Wf
     obtain ⟨l, hl, _⟩ := closure_spec wf hac t (wf.n + 1) (by have := hts t ht; omega)
     exact ⟨l, hl⟩
   obtain ⟨l, hl, hm⟩ := collect_spec _ ts hall
-  refine ⟨dedup l, by simp [runSet, hs, hl], nodup_dedup l, ?_⟩
+  have hfun : closureK wf true true true (wf.n + 1) = closureF wf true (wf.n + 1) := funext fun p => closureK_true wf true _ p
+  refine ⟨dedup l, by simp [runSet, hs, hmf, hmp, hfun, hl], nodup_dedup l, ?_⟩
   intro q
   rw [mem_dedup, hm q]
   constructor
@@ -114,7 +116,7 @@ theorem c16_unconnected_refused (sem : RunSem) (hg : good sem) (wf : Wf) (target
     (rs : List Nat) (hrs : runSet sem wf targets = some rs) (p : Nat) (hp : p ∈ rs) (hnr : ready wf p = false) :
     plan sem wf targets = .refused := by
   have hchk := hg.2.2.2.1
-  have hbefore := hg.2.2.2.2.2
+  have hbefore := hg.2.2.2.2.2.1
   unfold plan
   rw [hrs]
   simp only
@@ -143,7 +145,7 @@ def wfSelf : Wf := { n := 1, edges := [], inPorts := [1], hasOut := [true], self
 def wfLeaf : Wf := { n := 2, edges := [(0, 1, 0)], inPorts := [0, 1], hasOut := [true, false], selfFed := [] }
 def wfLeafOpen : Wf := { n := 2, edges := [], inPorts := [0, 1], hasOut := [true, false], selfFed := [] }
 def wfSingle : Wf := { n := 1, edges := [], inPorts := [0], hasOut := [false], selfFed := [] }
-def semGood : RunSem := ⟨true, true, false, true, true, true⟩
+def semGood : RunSem := ⟨true, true, false, true, true, true, true, true⟩
 
 /-- F9: a FromStr-fed port makes the unguarded recursion diverge for every fuel -/
 theorem c16_recursion_without_skipSelf (f : Nat) : closureF wfSelf false f 0 = none :=
@@ -166,6 +168,17 @@ theorem c16_driver_not_checked :
 theorem c16_sink_not_run :
     plan { semGood with sinkWaited := false } wfLeaf none = .started [0] (some 1) false := by decide
 
+/-- a parameter producer (1) with an upstream of its own (0), feeding the parameter port of 2 -/
+def wfParamChain : Wf :=
+  { n := 3, edges := [(0, 1, 0), (1, 2, 0)], inPorts := [0, 1, 1], hasOut := [true, true, true], selfFed := [],
+    paramPorts := [(1, 0), (2, 0)] }
+
+/-- when the closure reached through a parameter connection is not merged, `RunTo` leaves out the
+processes upstream of the parameter producer (which then waits for them forever) -/
+theorem c16_param_closure_not_merged :
+    plan { semGood with mergesParam := false } wfParamChain (some [2]) = .started [2, 1] none true ∧
+    plan semGood wfParamChain (some [2]) = .started [2, 1, 0] none true := by decide
+
 example : good semGood ∧ acyclic wfLeaf := by decide
 
 end SciVerif.Graph
@@ -183,3 +196,4 @@ end SciVerif.Graph
 #print axioms SciVerif.Graph.c16_double_start_single
 #print axioms SciVerif.Graph.c16_driver_not_checked
 #print axioms SciVerif.Graph.c16_sink_not_run
+#print axioms SciVerif.Graph.c16_param_closure_not_merged
